@@ -2,6 +2,7 @@
 from . import hydro_checks as HY
 from . import shift_checks as SH
 from . import ref_checks as RF
+from . import prov_checks as PV
 
 
 def dispatch_replay(chk, rp):
@@ -18,4 +19,5 @@ REGISTRY = {
     "C06": {"run": HY.c06, "replay": dispatch_replay},
     "C07": {"run": SH.c07, "replay": dispatch_replay},
     "C09": {"run": RF.c09, "replay": dispatch_replay},
+    "C13": {"run": PV.c13, "replay": dispatch_replay},
 }
